@@ -166,14 +166,34 @@ def execute(binpath, workdir, progs, specs, groups, deadline_ms=5000):
     for gi, g in enumerate(groups):
         for mi, m in enumerate(g["members"]):
             s = specs[m["si"]]
-            flat.append({"id": len(flat), "prog": s.get("prog", 0), "spec": s["str"], "env": list(m["env"]), "argv": list(m["argv"]),
-                         "prerun": [list(x) for x in m.get("prerun", [])]})
+            flat.append(exec_case(len(flat), s, m))
             index.append((gi, mi))
     rs = core.run_harness(binpath, "exec", flat, workdir, env={"HARNESS_PROGS": pf}, deadline_ms=deadline_ms)
     out = [[None] * len(g["members"]) for g in groups]
     for (gi, mi), r in zip(index, rs):
-        out[gi][mi] = r
+        out[gi][mi] = unhex(r)
     return out
+
+
+RAWBYTE = "~"    # in a member marked rawbyte, every ~ of the command line is the single byte 0xFF on the library (not valid UTF-8)
+
+
+def exec_case(cid, s, m):
+    c = {"id": cid, "prog": s.get("prog", 0), "spec": s["str"], "env": list(m["env"]), "argv": list(m["argv"]),
+         "prerun": [list(x) for x in m.get("prerun", [])]}
+    if m.get("posthelp"):
+        c["posthelp"] = True
+    if m.get("rawbyte"):
+        c["argv_hex"] = [t.encode().replace(RAWBYTE.encode(), b"\xff").hex() for t in m["argv"]]
+    return c
+
+
+def unhex(r):
+    """values logged hex-encoded come back as text with 0xFF as ~ (anything else that is not valid UTF-8 becomes U+FFFD)"""
+    for k in ("log", "envlog"):
+        for var, calls in (r.get(k) or {}).items():
+            r[k][var] = [("S:" + bytes.fromhex(c[4:]).replace(b"\xff", RAWBYTE.encode()).decode("utf-8", "replace")) if c.startswith("S:h:") else c for c in calls]
+    return r
 
 
 def outcome(r, only_opts=False):
